@@ -5,11 +5,48 @@ from base import CutPolicy
 from absint import EMPTY, V, vfield, tagvals, const_of
 
 PM = "pool_manager"
-CS = "pool_manager::helpers::compute_swap"
-C = "Call(helpers::compute_swap)"
-OUT = {C + ".return_amount", C + ".protocol_fee_amount", C + ".burn_fee_amount"}
-KEEP = {C + ".swap_fee_amount", C + ".extra_fees_amount"}
 FEES = ["swap_fee_amount", "protocol_fee_amount", "burn_fee_amount", "extra_fees_amount"]
+_CUT = {}
+
+
+def cut_point(W):
+    """The swap computation cut point, found by what it is rather than by name: the outermost function on the
+    Swap path whose return type carries the six SwapComputation amounts."""
+    key = W.facts_dir
+    if key in _CUT:
+        return _CUT[key]
+    from absint import short_fn
+    A = W.run(PM, "execute", ("Swap",))
+    best = None
+    for e in A.events:
+        if e.kind != "call" or not e.extra.get("rid"):
+            continue
+        b = W.F.get(e.extra["rid"])
+        if b is None or b.kind != "fn" or b.crate != PM:
+            continue
+        r = e.extra.get("ret")
+        if r is None or not all(f in r.fields for f in ["return_amount", "slippage_amount"] + FEES):
+            continue
+        if "Store(POOLS)" not in {o for (o, ops) in flat_atoms(e.extra["dargs"][0])} if e.extra.get("dargs") else True:
+            continue
+        if best is None or len(e.ctx) < best[0]:
+            best = (len(e.ctx), b.id)
+    cs = best[1] if best else "pool_manager::helpers::compute_swap"
+    _CUT[key] = (cs, "Call(%s)" % short_fn(cs))
+    return _CUT[key]
+
+
+class _Names:
+    """origins of the cut point's result fields (resolved lazily per fact base)"""
+
+    def bind(self, W):
+        self.CS, self.C = cut_point(W)
+        self.OUT = {self.C + ".return_amount", self.C + ".protocol_fee_amount", self.C + ".burn_fee_amount"}
+        self.KEEP = {self.C + ".swap_fee_amount", self.C + ".extra_fees_amount"}
+        return self
+
+
+N = _Names()
 
 
 def amap(v, drop_key=True):
@@ -23,6 +60,9 @@ def amap(v, drop_key=True):
 
 def swap_conservation(W, chk, vp, offer_pat, recv_origins, denom_origin, lab):
     """reserve update and outgoing messages of one swap-like variant, with compute_swap as a cut point"""
+    N.bind(W)
+    CS, C, OUT, KEEP = N.CS, N.C, N.OUT, N.KEEP
+    offer_pat = offer_pat.replace("Call\\(helpers::compute_swap\\)", re.escape(C))
     pol = CutPolicy([], opaque=[CS])
     A = W.run(PM, "execute", vp, pol)
     pw = [e for e in A.writes() if e.extra.get("item") == "POOLS"]
@@ -75,7 +115,7 @@ def swap_conservation(W, chk, vp, offer_pat, recv_origins, denom_origin, lab):
     chk.expect(sent == deducted and sent == OUT, "AGREE-deducted-equals-sent", lab, "what leaves the contract is exactly what is deducted from the ask reserve",
                "deducted from reserve %s but sent out %s" % (sorted(deducted), sorted(sent)), A.entry)
     # compute_swap is called on the stored pool, the offer coin and the requested ask denom; index lookup uses the same denoms
-    for e in A.calls_id(r"helpers::compute_swap$"):
+    for e in A.calls_id(re.escape(CS) + "$"):
         da = e.extra["dargs"]
         ok = exact_origins(without_key(da[0])) >= {"Store(POOLS)"} and bool(all_origins(vfield(da[1], "amount"))) and all_origins(da[2]) == {denom_origin}
         chk.expect(ok, "AGREE-compute-swap-args", lab, "compute_swap(stored pool, offer coin, requested ask denom)",
@@ -90,81 +130,74 @@ def without_key(v):
 
 
 def fee_internals(W, chk):
-    # ---- compute_fees: each fee from its own share, of the same gross amount, rounded down
-    H = W.run_fn("pool_manager::helpers::compute_fees")
-    fc = H.calls_id(r"mantra_dex_std::fee::.*::compute$")
-    selfs = sorted(tuple(sorted(exact_origins(e.extra["dargs"][0]))) for e in fc)
-    chk.expect(selfs == [("pool_fees.burn_fee",), ("pool_fees.extra_fees[*]",), ("pool_fees.protocol_fee",), ("pool_fees.swap_fee",)], "AGREE-fees", "Fee::compute receivers",
-               "swap/protocol/burn/each extra fee computed from its own configured share", "Fee::compute is applied to %s" % selfs, H.entry)
-    chk.expect(all(exact_origins(e.extra["dargs"][1]) == {"amount"} and not ops_of(e.extra["dargs"][1]) for e in fc) and bool(fc), "AGREE-fees", "Fee::compute amount",
-               "every fee is taken from the same gross amount", "fee base amounts: %s" % [sorted(all_origins(e.extra["dargs"][1])) for e in fc], H.entry)
+    """inside the cut point (analysed on its own, parameters named after its arguments): each fee is a floor share of
+    the gross output under its own configured share; the net return subtracts all four"""
+    N.bind(W)
+    b = W.F.get(N.CS)
+    H = W.run_fn(N.CS, names=["pool_info", "offer_asset", "ask_asset_denom"])
     r = H.ret if H.ret is not None else EMPTY
-    for f, src in (("swap_fee_amount", "pool_fees.swap_fee.share"), ("protocol_fee_amount", "pool_fees.protocol_fee.share"),
-                   ("burn_fee_amount", "pool_fees.burn_fee.share"), ("extra_fees_amount", "pool_fees.extra_fees[*].share")):
+    share = {"swap_fee_amount": "pool_info.pool_fees.swap_fee.share", "protocol_fee_amount": "pool_info.pool_fees.protocol_fee.share",
+             "burn_fee_amount": "pool_info.pool_fees.burn_fee.share", "extra_fees_amount": "pool_info.pool_fees.extra_fees[*].share"}
+    for f, src in share.items():
         m = amap(vfield(r, f))
-        srcs = {o for o in m if o.startswith("pool_fees")}
+        srcs = {o for o in m if o.startswith("pool_info.pool_fees")}
         ops = set().union(*m.values()) if m else set()
-        chk.expect(srcs == {src} and "amount" in m and "div_ceil" not in ops and "div_floor" in ops, "AGREE-fees", f,
-                   "%s = floor(amount * %s)" % (f, src), "%s derives from %s with ops %s" % (f, sorted(srcs), sorted(ops)), H.entry)
-    # ---- Fee::compute rounding (mantra_dex_std)
-    for b in W.F.fns("mantra_dex_std"):
-        if re.search(r"::fee::\{impl#\d+\}::compute$", b.id):
-            F = W.run_fn(b.id)
+        chk.expect(srcs == {src} and "div_ceil" not in ops and "div_floor" in ops, "AGREE-fees", f,
+                   "%s = floor(gross * %s)" % (f, src.split("pool_fees.")[1]), "%s derives from %s with ops %s" % (f, sorted(srcs), sorted(ops)), b.span)
+    m = amap(vfield(r, "return_amount"))
+    want = set(share.values())
+    chk.expect(want <= set(m) and all("sub:r" in m[o] for o in want), "PROV-net-return", "return_amount",
+               "net return = gross - swap - protocol - burn - extra fees", "net return subtracts only %s" % sorted(o for o in m if o.startswith("pool_info.pool_fees")), b.span)
+    fc = H.calls_id(r"mantra_dex_std::fee::.*::compute$")
+    selfs = sorted({tuple(sorted(exact_origins(e.extra["dargs"][0]))) for e in fc})
+    want_s = [("pool_info.pool_fees.burn_fee",), ("pool_info.pool_fees.extra_fees[*]",), ("pool_info.pool_fees.protocol_fee",), ("pool_info.pool_fees.swap_fee",)]
+    chk.expect(selfs == want_s, "AGREE-fees", "Fee::compute receivers", "swap / protocol / burn / each extra fee is computed from its own configured Fee",
+               "Fee::compute is applied to %s" % selfs, b.span)
+    bases = {frozenset(flat_atoms(e.extra["dargs"][1])) for e in fc}
+    # constant-product and stableswap arms each have one gross amount; all fees of an arm share it
+    chk.expect(1 <= len(bases) <= 2, "AGREE-fees", "Fee::compute amount", "all fees of a pool type are taken from the same gross amount",
+               "%d different fee base amounts" % len(bases), b.span)
+    for fb in W.F.fns("mantra_dex_std"):
+        if re.search(r"::fee::\{impl#\d+\}::compute$", fb.id):
+            F = W.run_fn(fb.id)
             ops = ops_of(F.ret) if F.ret is not None else set()
             chk.expect("div_floor" in ops and "div_ceil" not in ops, "ROUND-fee", "Fee::compute", "share of the amount rounded down", "Fee::compute ops %s" % sorted(ops), F.entry)
-    # ---- get_swap_computation: net return subtracts all four; fields wired to same names
-    G = W.run_fn("pool_manager::helpers::get_swap_computation")
-    r = G.ret if G.ret is not None else EMPTY
-    m = amap(vfield(r, "return_amount"))
-    want = {"fees_computation." + f for f in FEES}
-    chk.expect(want <= set(m) and all("sub" in m[o] for o in want) and "return_amount" in m, "PROV-net-return", "get_swap_computation",
-               "return = gross - swap - protocol - burn - extra", "net return subtracts only %s" % sorted(o for o in m if o.startswith("fees_computation")), G.entry)
-    for f in FEES:
-        o = vfield(r, f)
-        chk.expect(exact_origins(o) == {"fees_computation." + f} and not (ops_of(o) - {"ext:TryInto::try_into"}), "AGREE-fees", "SwapComputation." + f,
-                   "%s <- FeesComputation.%s" % (f, f), "SwapComputation.%s <- %s" % (f, sorted(all_origins(o))), G.entry)
-    # ---- aggregate_outgoing_fees = protocol + burn
-    Ag = W.run_fn("pool_manager::helpers::aggregate_outgoing_fees")
-    m = amap(Ag.ret if Ag.ret is not None else EMPTY)
-    chk.expect(m == {"simulation_response.protocol_fee_amount": {"add"}, "simulation_response.burn_fee_amount": {"add"}}, "AGREE-fees", "aggregate_outgoing_fees",
-               "outgoing fees = protocol + burn", "aggregate_outgoing_fees = %s" % {k: sorted(v) for k, v in m.items()}, Ag.entry)
-    # ---- to_simulation_response
-    for b in W.F.fns(PM):
-        if b.id.endswith("::to_simulation_response"):
-            T = W.run_fn(b.id)
-            r = T.ret if T.ret is not None else EMPTY
-            for f in ["return_amount", "slippage_amount"] + FEES:
-                o = vfield(r, f)
-                chk.expect(exact_origins(o) == {"self." + f} and not ops_of(o), "AGREE-fees", "to_simulation_response." + f, "same-named field",
-                           "SimulationResponse.%s <- %s" % (f, sorted(all_origins(o))), T.entry)
 
 
 def swap_result_wiring(W, chk):
-    pol = CutPolicy([], opaque=[CS])
-    P = W.run_fn("pool_manager::swap::perform_swap::perform_swap", policy=pol)
+    """best effort (skipped when no function returns a `SwapResult`): the struct handed to the swap handlers is wired
+    field by field to the cut point's same-named amounts"""
+    N.bind(W)
+    C = N.C
+    cands = W.find_fns(PM, lambda b: "SwapResult" in b.locals[0] and "perform_swap" in b.locals[0])
+    if not cands:
+        chk.skip("AGREE-swap-result", "SwapResult", "no function returning swap::perform_swap::SwapResult")
+        return None
+    pol = CutPolicy([], opaque=[N.CS])
+    P = W.run_fn(cands[0].id, policy=pol)
     r = P.ret if P.ret is not None else EMPTY
     for f, src in (("return_asset", "return_amount"), ("burn_fee_asset", "burn_fee_amount"), ("protocol_fee_asset", "protocol_fee_amount"),
                    ("swap_fee_asset", "swap_fee_amount"), ("extra_fees_asset", "extra_fees_amount")):
         o = vfield(vfield(r, f), "amount")
-        chk.expect(exact_origins(o) == {C + "." + src} and not ops_of(o), "AGREE-swap-result", f, "SwapResult.%s.amount <- compute_swap.%s" % (f, src),
+        chk.expect(exact_origins(o) == {C + "." + src} and not ops_of(o), "AGREE-swap-result", f, "SwapResult.%s.amount <- computed %s" % (f, src),
                    "SwapResult.%s.amount <- %s" % (f, sorted(all_origins(o))), P.entry)
-        d = vfield(vfield(r, f), "denom")
-        chk.expect(exact_origins(d) == {"ask_asset_denom"}, "AGREE-swap-result", f + ".denom", "in the ask denom", "SwapResult.%s.denom <- %s" % (f, sorted(all_origins(d))), P.entry)
     o = vfield(r, "slippage_amount")
     chk.expect(exact_origins(o) == {C + ".slippage_amount"}, "AGREE-swap-result", "slippage_amount", "same-named", "slippage <- %s" % sorted(all_origins(o)), P.entry)
     return P
 
 
 def simulation_wiring(W, chk):
-    pol = CutPolicy([], opaque=[CS])
+    N.bind(W)
+    C = N.C
+    pol = CutPolicy([], opaque=[N.CS])
     Q = W.run(PM, "query", ("Simulation",), pol)
     r = Q.ret if Q.ret is not None else EMPTY
     for f in ["return_amount", "slippage_amount"] + FEES:
         o = vfield(r, f)
-        chk.expect(exact_origins(o) == {C + "." + f} and not ops_of(o), "AGREE-simulation", f, "SimulationResponse.%s <- compute_swap.%s (exact)" % (f, f),
+        chk.expect(exact_origins(o) == {C + "." + f} and not ops_of(o), "AGREE-simulation", f, "SimulationResponse.%s <- computed %s (exact)" % (f, f),
                    "Simulation.%s <- %s ops %s" % (f, sorted(all_origins(o)), sorted(ops_of(o))), Q.entry)
-    cs = Q.calls_id(r"helpers::compute_swap$")
-    chk.expect(len(cs) == 1, "AGREE-simulation", "single-source", "one compute_swap call", "%d compute_swap calls" % len(cs), Q.entry)
+    cs = Q.calls_id(re.escape(N.CS) + "$")
+    chk.expect(len(cs) == 1, "AGREE-simulation", "single-source", "one swap computation", "%d swap computations in Simulation" % len(cs), Q.entry)
     for e in cs:
         da = e.extra["dargs"]
         ok = "Store(POOLS)" in exact_origins(da[0]) and exact_origins(da[1]) == {"msg.Simulation.offer_asset"} and exact_origins(da[2]) == {"msg.Simulation.ask_asset_denom"}
@@ -172,7 +205,13 @@ def simulation_wiring(W, chk):
         for r_ in Q.reads():
             if r_.extra.get("item") == "POOLS":
                 keys |= all_origins(r_.extra.get("key", EMPTY))
-        chk.expect(ok and keys == {"msg.Simulation.pool_identifier"}, "AGREE-simulation", "args", "compute_swap(stored pool[pool_identifier], offer_asset, ask denom)",
+        chk.expect(ok and keys == {"msg.Simulation.pool_identifier"}, "AGREE-simulation", "args", "computed on (stored pool[pool_identifier], offer_asset, ask denom)",
                    "simulation computes on pool %s offer %s ask %s" % (sorted(keys), sorted(all_origins(da[1])), sorted(all_origins(da[2]))), where(e))
     chk.expect(not Q.effects(), "T-query-pure", "Simulation", "no storage write / message reachable from the query", "query has effects %s" % effects_signature(Q), Q.entry)
     return Q
+
+
+def hop_offers(A):
+    """offer amounts fed to the swap computation (one entry per call site)"""
+    N_ = N
+    return [(e, amap(vfield(e.extra["dargs"][1], "amount")), e.extra["dargs"]) for e in A.calls_id(re.escape(N_.CS) + "$")]
